@@ -398,6 +398,51 @@ func verifProfileBlob(db *sql.DB, user string) string {
 	return string(b)
 }
 
+type verifTokView struct {
+	Name    string
+	Enabled bool
+}
+
+// verifProfileView: a normalised, comparable view of a stored profile.
+type verifProfileView struct {
+	Exists       bool
+	U2F          map[int64]verifTokView
+	TOTP         map[int64]verifTokView
+	WebAuthn     map[int64]verifTokView
+	BootstrapOTP bool
+	BootstrapExp time.Time
+	PendingTOTP  bool
+	RegChallenge bool
+	LastTOTPStep int64
+	Registered2F bool
+	Err          string
+}
+
+func (e *verifEnv) ProfileView(user string) verifProfileView {
+	p, ok, _, err := e.State.LoadUserProfile(user)
+	v := verifProfileView{Exists: ok, U2F: map[int64]verifTokView{}, TOTP: map[int64]verifTokView{}, WebAuthn: map[int64]verifTokView{}}
+	if err != nil {
+		v.Err = err.Error()
+		return v
+	}
+	for i, t := range p.U2fAuthData {
+		v.U2F[i] = verifTokView{t.Name, t.Enabled}
+	}
+	for i, t := range p.TOTPAuthData {
+		v.TOTP[i] = verifTokView{t.Name, t.Enabled}
+	}
+	for i, t := range p.WebauthnData {
+		v.WebAuthn[i] = verifTokView{t.Name, t.Enabled}
+	}
+	v.BootstrapOTP = len(p.BootstrapOTP.Sha512Hash) > 0
+	v.BootstrapExp = p.BootstrapOTP.ExpiresAt
+	v.PendingTOTP = p.PendingTOTPSecret != nil
+	v.RegChallenge = p.RegistrationChallenge != nil
+	v.LastTOTPStep = p.LastSuccessfullTOTPCounter
+	v.Registered2F = p.UserHasRegistered2ndFactor
+	return v
+}
+
 // CA certificates exactly as main() adds them to the TLS client pool.
 func (e *verifEnv) ClientCAPool() *x509.CertPool {
 	pool := x509.NewCertPool()
